@@ -8,6 +8,7 @@ CODES = ['p', 'q', 'i', 'm']
 FIELD = {
     'p': ('u8', None),
     'q': ('Mod4', None),
+    'n': ('Nan', None),                   # non-reflexive == (like a float NaN): a == a must follow the field
     'i': ('u8', {'ignore': True}),
     'm': ('u8', {'method': 'eq_le'}),
     'h': ('u8', {'method': 'eq_half'}),   # lawful method, for the law harness
@@ -72,7 +73,7 @@ def has_compared(t):
     return any(getattr(f, 'code', 'p') != 'i' for v in t.variants for f in v.fields)
 
 
-def emit(t, modname, cfgid, sp=None, pre='', law_t=None, classes=(), xf=None):
+def emit(t, modname, cfgid, sp=None, pre='', law_t=None, classes=(), xf=None, irreflexive=False):
     """module for type t (already attributed).  law_t: twin with lawful methods for the laws."""
     if xf:
         xf(t)
@@ -82,7 +83,7 @@ def emit(t, modname, cfgid, sp=None, pre='', law_t=None, classes=(), xf=None):
     covers = ['oracle eq']
     if len(t.variants) > 1 or has_compared(t):
         covers.append('oracle ne')
-    body += Harness('h_eq', covers=covers).attrs()
+    body += Harness('h_eq', covers=covers + (['irreflexive value'] if irreflexive else [])).attrs()
     body += '''pub fn h_eq() {
     let a = anyv();
     let b = anyv();
@@ -94,8 +95,11 @@ def emit(t, modname, cfgid, sp=None, pre='', law_t=None, classes=(), xf=None):
     // the same object on both sides (a pointer-equality shortcut must not change the result)
     let oa = oracle_eq(&a, &a);
     assert!((a == a) == oa, "a == a by the same reference differs from the field-wise oracle");
-}
-'''
+    assert!((a != a) == !oa, "a != a by the same reference differs from the field-wise oracle");
+IRREFLEXIVE}
+'''.replace('IRREFLEXIVE', '    kani::cover!(!oa, "irreflexive value");\n' if irreflexive else '')
+    if irreflexive:
+        covers = covers + ['irreflexive value']
     hs = [Harness('h_eq', covers=covers)]
     if law_t is not None:
         lt = law_t
@@ -182,8 +186,21 @@ def gen(tier, seed, sp_factory=None):
             mods.append(emit(build(sh, carrier, with_eq), f'm{len(mods):04d}', f'{S.shape_id(sh)}/carrier={carrier}/generic header <G, const N> where G: Copy at <u8, 3>'))
     finally:
         model.TYPE_WRAP = None
+    # fields whose own == is not reflexive (NaN-like): no method anywhere, so that a pointer-identity shortcut
+    # gated on "no custom method" is still exercised
+    for sh in IRREFLEXIVE_SHAPES:
+        mods.append(emit(build(sh, 'PartialEq', False), f'm{len(mods):04d}', f'{S.shape_id(sh)}/carrier=PartialEq/irreflexive field', irreflexive=True))
     mods += special_modules(len(mods))
     return mods
+
+
+IRREFLEXIVE_SHAPES = [
+    ('struct', [('named', ['n', 'p'])]),
+    ('struct', [('tuple', ['i', 'n'])]),
+    ('enum', [('tuple', ['n', 'p']), ('named', ['i', 'n']), ('unit', [])]),
+    ('enum', [('named', ['n'])]),
+    ('enum', [('unit', []), ('tuple', ['n'])]),
+]
 
 
 RULE = ('one config = one derive request (shape x per-field {plain u8, plain Mod4, ignored, method} x carrier trait); '
